@@ -115,10 +115,48 @@ PROPS["C13"] = P([("reuse", "fast", 1.0)],
     quick_runs=160, quick_budget_s=110, thorough_budget_s=1800,
     expect_probes=["solve_without_setup", "second_or_later_solve", "rejected_setup", "fault:alloc_fail"])
 
+PROPS["C09"] = P([("fmgop", "fast", 0.3), ("fmgop", "trace", 0.1), ("fmgstart", "fast", 0.6)],
+    "(A) the FMG interpolation on seeded fine/coarse pairs (non-uniform radial/angular spacing, every node class, both sides of "
+    "the parallel threshold); (B) solve() with maxIterations=0 (start-up only) for 2..6 levels, 0..3 FMG cycles of every type, "
+    "with/without extrapolation on (i) a fresh object, (ii) an object whose work vectors were filled with junk (NaN/Inf/large), "
+    "(iii) an object that has already solved; distinct = distinct option signature",
+    "deterministic simulation; polynomial exactness of the operator; history-independence of the start-up (fresh vs junk-filled "
+    "vs used object, bitwise under the canonical schedule) and refinement against the harness's own nested iteration",
+    "The start vector must be bit-identical across object histories and schedules, equal the harness's nested iteration "
+    "(coarsest direct solve, interpolate, cycles) built from the object's public operators, solve the coarse system when no "
+    "start-up cycles are used, and be within 10x of the converged discrete error when >=1 cycle per level is used.",
+    quick_runs=900, quick_budget_s=90, thorough_budget_s=1500,
+    expect_probes=["used_object_compared", "interpolated_coarse_solution_compared", "accuracy_compared", "levels_2", "levels_4",
+                   "midpoint_pair", "nonmidpoint_pair"])
+PROPS["C10"] = P([("cycles", "fast", 0.8), ("cycles", "trace", 0.2)],
+    "each of the six private cycle functions (through the guarded accessor) for 2..5 levels, pre/post smoothing counts 0..3, both "
+    "strategies and boundary modes: (a) iterate = exact solution of the (extrapolated) system, (b) random iterate, two levels, no "
+    "smoothing, (c) every scratch vector of every level pre-filled with junk / left by previous cycles",
+    "deterministic simulation of single cycles with junk-history faults; fixed-point oracle against the reference model, "
+    "algebraic coarse-grid correction from public operators, bitwise junk- and history-independence",
+    "(a) unchanged in residual space; (b) equals u + P A_c^-1 R (f - A u) (extrapolated: 4/3 R_ex r - 1/3 r_c(inject u)); (c) "
+    "bit-identical with and without NaN junk in the scratch vectors and after previous cycles, under the canonical schedule.",
+    quick_runs=900, quick_budget_s=80, thorough_budget_s=1500,
+    expect_probes=["mode_0", "mode_1", "mode_2", "history_compared", "cycle_V", "cycle_W", "cycle_F", "cycle_V_ex", "cycle_W_ex",
+                   "cycle_F_ex", "levels_3"])
+
+PROPS["C02"] = P([("ladder", "fast", 1.0)],
+    "refinement ladders divideBy2 = 0..3 (quick, 17x32 -> 129x256) / 0..4 (thorough, -> 257x512) for every smooth manufactured "
+    "problem x geometry x coefficient profile, both boundary treatments (across-origin with R0 <= 1e-5), both strategies, cache "
+    "flags, on ONE reused object (the shipped convergence_order pattern) or fresh objects, each solve run under the simulator "
+    "(threads 1..8, per-level reduction, seeded schedule); distinct = distinct option signature",
+    "deterministic simulation of the convergence_order refinement loop; orders from the recorded error histories",
+    "The truth of C02 does not depend on a schedule or fault: the simulator contributes thread count, shortfall, reduction order "
+    "and the reused-object history; the oracle is numerical (two-rung order estimates with 0.15 estimation allowance, "
+    "extrapolated vs plain on the finest common rung, library error figures vs harness evaluation).",
+    quick_runs=48, quick_budget_s=150, thorough_budget_s=1800,
+    expect_probes=["order_judged", "extrapolated_ladder", "plain_ladder", "reused_object", "extrapolated_vs_plain_compared",
+                   "geometry_0", "geometry_1", "geometry_2"])
+
 NOT_APPLICABLE = {
     "C16": "pure sequential function (A,b)->x: SparseLUSolver factorises in its constructor, solveInPlace is const; no schedule, clock, I/O, fault or history for a simulator to own (DESIGN.md 9.3)",
     "C17": "PolarGrid is an immutable value object built sequentially; every query is a pure function of its arrays (DESIGN.md 9.3)",
     "C19": "closed-form const functions of (r,theta); no state, no parallel region, no I/O (DESIGN.md 9.3)",
 }
 PENDING = {k: "check under construction at this commit (see DESIGN.md section 6); not claimed yet" for k in
-           ["C02", "C09", "C10", "C14", "C15", "C18", "C20"]}
+           ["C14", "C15", "C18", "C20"]}
